@@ -110,6 +110,12 @@ class WaveStreamInfo(StreamInfo):
 class _WaveID3(ID3):
     """A Wave file with ID3v2 tags"""
 
+    def load(self, *args, **kwargs):
+        # There is no ID3v1 tag in here: the end of the file is not the
+        # end of the tag's container, don't go looking for "TAG" there.
+        kwargs.setdefault("load_v1", False)
+        super(_WaveID3, self).load(*args, **kwargs)
+
     def _pre_load_header(self, fileobj):
         try:
             fileobj.seek(_WaveFile(fileobj)[u'id3'].data_offset)
